@@ -4,6 +4,7 @@ import SqlgrepModel.Props.C03
 import SqlgrepModel.Lemmas.RowIndex
 import SqlgrepModel.Lemmas.NoSkip
 import SqlgrepModel.Lemmas.NoSkipEngine
+import SqlgrepModel.Lemmas.AggItems
 /-
 C09 — execution is total: results or an error message, never a crash, never a silently wrapped number.
 
@@ -25,12 +26,18 @@ What no executable model exhibits (panics inside regex / serde_json / chrono, st
 failure, hangs, non-UTC zones) is covered by the harness runs only (see DESIGN.md section 13).
 
 Third part ("never skipped"): a run of the model can also end `skipped` — the model's way of saying "I was not given an
-external fact I need", which the check counts and does not compare. `function_call_skipped_iff` says exactly where that
-happens (four sites of `callFunction`, nowhere else in evaluator, engines and executor), `run_not_skipped` /
-`run_trichotomy` say when it does not: for a statement that calls none of `upper`, `lower`, `regexp_matches`, `now`
-(`Stmt.factFree`, decidable) a batch run ends with its records and `error = none`, or with the records printed so far and
-`error = some kind` — never `panicked`, never `skipped`, for all oracle tables. `run_ends_one_way`: no run sets two of the
-three failure fields. The end-to-end versions (`Pipeline.runLowered`, `Pipeline.runText`) and the composition of the
+external fact I need", which the check counts and does not compare. `skipped` is an artefact of the DRIVER's finite fact
+tables, not a way the program ends: `upper`, `lower`, `regexp_matches`, `now` are total functions of the libraries. The
+property sentence — records or a reported error — is therefore stated over TOTAL oracle functions
+(`TotalOracles`: `upperF lowerF : Bytes → Bytes`, `regexF : Bytes → Bytes → Option Bool` with `none` = invalid pattern,
+`nowF : Value`; `Oracles.Total`: such functions stand behind the tables) and holds for EVERY statement:
+`run_total_of_total_oracles` — with a total oracle no evaluation is `oracleMissing` (`eval_total_of_total_oracles`), so a
+batch run of any statement ends in exactly one of two ways, its records with `error = none` or the records printed so
+far with `error = some kind` — never `panicked`, never `skipped`. For the oracles the driver works with (finite tables,
+`total = none`) `function_call_skipped_iff` says exactly where the model stops (four sites of `callFunction`, nowhere
+else in evaluator, engines and executor), and the corollaries `run_not_skipped` / `run_trichotomy` say that a statement
+calling none of the four functions (`Stmt.factFree`, decidable) is never skipped for ANY tables. `run_ends_one_way`: a run
+sets at most one of `error` and `skipped`, and never `panicked`. The end-to-end versions (`Pipeline.runLowered`, `Pipeline.runText`) and the composition of the
 `row[index]` lemmas over the end-to-end model are in `Props/C09Pipeline.lean`.
 -/
 namespace Sqlgrep.Props.C09
@@ -120,7 +127,12 @@ it never happens, so that the run ends with records or a reported error, is `fun
 `run_not_skipped` and `run_trichotomy` below.
 The two indexing sites of `execute_result` (`group_key_mapping[&hash]`, `group_key.0[index]`) are shown
 unreachable through the invariant `Inv` (a group exists only after an update that validated every `GroupKey`
-item, and every stored key has one value per GROUP BY part). -/
+item, and every stored key has one value per GROUP BY part). A third indexing site of `execute_result`,
+`result_rows_by_column[0]` (aggregate_execution.rs:276: the first result column, one column per select-list item), has
+NO panic outcome in the model: it is out of range only for an aggregate statement without any item, and
+`aggregate_statement_has_items` below shows that no text lowers to such a statement (the theorem here quantifies over
+all `Query` values, also hand-built ones with `items = []`, on which the Rust engine would panic at that site — such a
+value is not an accepted statement). UTC only; text format (JSON / CSV: `Pipeline.runText_never_panics`). -/
 theorem run_never_panics (O : Oracles) (qy : Query) (joined : List FileLine) (files : List (List FileLine))
     (stopAt : Option Nat) : (runBatch O qy joined files stopAt).panicked = false := by
   have hfw : ∀ (o : Outcome JoinIndex), NP o → (failWith ({} : RunOut) o).panicked = false :=
@@ -176,6 +188,16 @@ theorem run_never_panics (O : Oracles) (qy : Query) (joined : List FileLine) (fi
       | panic s => rw [hs] at hn; simp [NP, Outcome.isPanic] at hn
       | oracleMissing w => rfl
 
+/-- **an aggregate statement that comes from a text has at least one select-list item**, so the site
+`result_rows_by_column[0]` of `execute_result` (aggregate_execution.rs:276) is in range for every accepted statement:
+the parser's projection loop pushes a projection before it can end, and `create_aggregate_statement` makes one item per
+projection (`Lemmas/AggItems.lean`). For every token vector, fuel and `Regex::new` oracle. -/
+theorem aggregate_statement_has_items (T : PrecTables) (fuel : Nat) (toks : List PTok) (op : POp)
+    (rv : List Char → Bool) (a : AggStmt) (t : String) (f : Option String) (j : Option LJoin)
+    (hp : Parse.parseTokensFuel T fuel toks = .tree op) (hl : Lower.lowerStatement rv op = .ok (.aggregate a t f j)) :
+    a.items ≠ [] :=
+  lowered_aggregate_has_items T fuel toks op rv a t f j hp hl
+
 /-- line-at-a-time execution (follow mode): from a state reached by successful steps, the next step never panics -/
 theorem step_never_panics (O : Oracles) (qy : Query) (idx : JoinIndex) (w : Bool) (es : EngineState) (l : Line)
     (h : Sqlgrep.NoPanicEngine.EInv qy es) : ∀ site, executeLine O qy idx w es l ≠ .panic site := by
@@ -194,9 +216,10 @@ theorem step_keeps_invariant (O : Oracles) (qy : Query) (idx : JoinIndex) (w : B
 /-- **exactly where the evaluator model stops for a missing fact.** A function call answers `oracleMissing w` iff it is
 one of four sites (`MissingSite`, `Lemmas/NoSkip.lean`): `upper(s)` / `lower(s)` of a text that is not ASCII and whose
 case mapping is not in the shipped table (`w = "upper"` / `"lower"`), `regexp_matches(v, p)` on a pair that is not in
-the shipped table (`w = "regex"`), and `now()` — ALWAYS (`w = "now"`: the model has no clock, so a statement that
-evaluates `now()` is always skipped by the model; such statements are compared with the implementation by the harness
-only up to the point of the call). No other function, no operator, no cast and no literal ever asks
+the shipped table (`w = "regex"`), and `now()` (`w = "now"`) — each of them only for an oracle WITHOUT total functions
+behind its tables (`O.total = none`: every oracle the driver builds; the model has no clock, so a statement that
+evaluates `now()` is always skipped by the driver's model; such statements are compared with the implementation by the
+harness only up to the point of the call). No other function, no operator, no cast and no literal ever asks
 (`eval_not_skipped`, `parse_literal_needs_no_oracle`). -/
 theorem function_call_skipped_iff (O : Oracles) (f : Func) (args : List Value) (w : String) :
     callFunction O f args = .oracleMissing w ↔ MissingSite O f args w :=
@@ -204,23 +227,31 @@ theorem function_call_skipped_iff (O : Oracles) (f : Func) (args : List Value) (
 
 /-- the same, read for one function: `upper(s)` is skipped iff `s` is not ASCII and its upper-casing was not shipped -/
 theorem upper_skipped_iff (O : Oracles) (s : Bytes) :
-    (∃ w, callFunction O .upper [.text s] = .oracleMissing w) ↔ isAscii s = false ∧ lookupB O.upper s = none := by
+    (∃ w, callFunction O .upper [.text s] = .oracleMissing w) ↔
+      isAscii s = false ∧ lookupB O.upper s = none ∧ O.total = none := by
   rw [← upper_missing_iff]
   cases callFunction O .upper [.text s] <;> simp [Outcome.isMissing]
 
 theorem lower_skipped_iff (O : Oracles) (s : Bytes) :
-    (∃ w, callFunction O .lower [.text s] = .oracleMissing w) ↔ isAscii s = false ∧ lookupB O.lower s = none := by
+    (∃ w, callFunction O .lower [.text s] = .oracleMissing w) ↔
+      isAscii s = false ∧ lookupB O.lower s = none ∧ O.total = none := by
   rw [← lower_missing_iff]
   cases callFunction O .lower [.text s] <;> simp [Outcome.isMissing]
 
 theorem regex_skipped_iff (O : Oracles) (v p : Bytes) :
     (∃ w, callFunction O .regexMatches [.text v, .text p] = .oracleMissing w) ↔
-      O.regex.find? (fun e => e.1.1 == v && e.1.2 == p) = none := by
+      O.regex.find? (fun e => e.1.1 == v && e.1.2 == p) = none ∧ O.total = none := by
   rw [← regex_missing_iff]
   cases callFunction O .regexMatches [.text v, .text p] <;> simp [Outcome.isMissing]
 
-/-- `now()` is skipped whatever was shipped -/
-theorem now_is_always_skipped (O : Oracles) : callFunction O .now [] = .oracleMissing "now" := rfl
+/-- `now()` is skipped exactly when the oracle holds no clock reading (`total = none`) — whatever tables were shipped:
+no case ships the clock, so the model the driver runs always stops at `now()` … -/
+theorem now_skipped_iff (O : Oracles) : callFunction O .now [] = .oracleMissing "now" ↔ O.total = none :=
+  now_missing_iff O
+
+/-- … and with a total oracle it is the clock reading -/
+theorem now_of_total_oracle (O : Oracles) (T : TotalOracles) (h : O.total = some T) : callFunction O .now [] = .ok T.nowF := by
+  simp [callFunction, h]
 
 /-- **the evaluator asks only through function calls** (generic layer). Let `ok` be any set of function symbols whose
 calls are answered under the oracle tables `O` (no call of such a function is `oracleMissing`, whatever the arguments).
@@ -280,22 +311,91 @@ def ending (r : RunOut) : Ending :=
     | some k => .reported k
     | none => .output
 
-/-- **every run ends in at most one way**: no batch run sets two of `error`, `panicked`, `skipped` (so `ending` loses
-nothing) — for every statement and all oracle tables -/
+/-- **every run ends in exactly one way, and none of them is a panic**: a batch run — every statement, all oracle
+tables — has `panicked = false` and sets at most one of `error` and `skipped`: output, a reported error, or (only for an
+oracle with finite tables) skipped for a missing fact. (`NoSkipEngine.runBatch_oneWay` is the structural fact "at most
+one of the three fields"; its fourth case, `panicked = true`, is excluded by `run_never_panics`.) -/
 theorem run_ends_one_way (O : Oracles) (qy : Query) (joined : List FileLine) (files : List (List FileLine))
     (stopAt : Option Nat) :
     let r := runBatch O qy joined files stopAt
-    (r.error = none ∧ r.panicked = false ∧ r.skipped = none) ∨
-    ((∃ k, r.error = some k) ∧ r.panicked = false ∧ r.skipped = none) ∨
-    (r.error = none ∧ r.panicked = true ∧ r.skipped = none) ∨
-    (r.error = none ∧ r.panicked = false ∧ ∃ w, r.skipped = some w) :=
-  NoSkipEngine.runBatch_oneWay O qy joined files stopAt
+    r.panicked = false ∧
+    ((r.error = none ∧ r.skipped = none ∧ ending r = .output) ∨
+     (∃ k, r.error = some k ∧ r.skipped = none ∧ ending r = .reported k) ∨
+     (∃ w, r.error = none ∧ r.skipped = some w ∧ ending r = .skipped w)) := by
+  intro r
+  have hp : r.panicked = false := run_never_panics O qy joined files stopAt
+  refine ⟨hp, ?_⟩
+  have h := NoSkipEngine.runBatch_oneWay O qy joined files stopAt
+  unfold ending
+  rcases h with ⟨he, _, hs⟩ | ⟨⟨k, he⟩, _, hs⟩ | ⟨_, hpt, _⟩ | ⟨he, _, w, hs⟩
+  · left; refine ⟨he, hs, ?_⟩; show (match r.skipped with | some w => _ | none => _) = _; rw [hs, hp, he]; rfl
+  · right; left; refine ⟨k, he, hs, ?_⟩; show (match r.skipped with | some w => _ | none => _) = _; rw [hs, hp, he]; rfl
+  · exact absurd hpt (by rw [show (runBatch O qy joined files stopAt).panicked = false from hp]; decide)
+  · right; right; refine ⟨w, he, hs, ?_⟩; show (match r.skipped with | some w => _ | none => _) = _; rw [hs]
 
-/-- **the property sentence, for the engine and executor model: results or an error message, never a crash.** A batch
-run of a fact-free statement has `panicked = false` and `skipped = none`, and ends in exactly one of two ways: `Ok`
-(`error = none`: the printed records are the whole output) or a reported error (`error = some k`, after the records
-printed so far). For statements that are not fact-free the first conjunct still holds (`run_never_panics`) and
-`run_ends_one_way` says the run is then skipped INSTEAD OF ending in one of the two ways, never in addition. -/
+/-- **with total oracle functions no evaluation asks for a missing fact** — every expression, every environment -/
+theorem eval_total_of_total_oracles (O : Oracles) (hT : O.Total) (env : Env) (e : Expr) :
+    (∀ w, eval O env e ≠ .oracleMissing w) ∧ (∀ site, eval O env e ≠ .panic site) :=
+  ⟨(NM_iff _).1 (NM_eval_total O hT env e), eval_never_panics O env e⟩
+
+/-- … hence every evaluation is a value or a reported error -/
+theorem eval_value_or_error_of_total_oracles (O : Oracles) (hT : O.Total) (env : Env) (e : Expr) :
+    (∃ v, eval O env e = .ok v) ∨ (∃ k, eval O env e = .error k) := by
+  have h := eval_total_of_total_oracles O hT env e
+  cases he : eval O env e with
+  | ok v => exact Or.inl ⟨v, rfl⟩
+  | error k => exact Or.inr ⟨k, rfl⟩
+  | panic s => exact absurd he (h.2 s)
+  | oracleMissing w => exact absurd he (h.1 w)
+
+/-- a batch run under a total oracle is never skipped — EVERY statement -/
+theorem run_not_skipped_of_total_oracles (O : Oracles) (hT : O.Total) (qy : Query) (joined : List FileLine)
+    (files : List (List FileLine)) (stopAt : Option Nat) : (runBatch O qy joined files stopAt).skipped = none :=
+  NoSkipEngine.runBatch_not_skipped O anyFunc (fun f _ => NM_callFunction_total O hT f) qy joined files stopAt
+    (Stmt.allFuncs_any qy.stmt)
+
+/-- **run_total_of_total_oracles — the property sentence for EVERY statement: results or an error message, never a
+crash.** Let the external functions be total (`O.Total`: `upperF lowerF : Bytes → Bytes`, `regexF : Bytes → Bytes →
+Option Bool`, `nowF : Value` stand behind the oracle's tables — what `str::to_uppercase`, `Regex::new` / `is_match` and
+the clock are). Then a batch run of ANY statement (SELECT or aggregate; WHERE, GROUP BY, HAVING, DISTINCT, LIMIT, JOIN;
+`upper`, `lower`, `regexp_matches`, `now` anywhere), over any files, joined file and interrupt point, has
+`panicked = false` and `skipped = none`, and ends in exactly one of two ways: `Ok` (`error = none`: the printed records
+are the whole output) or a reported error (`error = some k`, after the records printed so far). `skipped` is thereby an
+artefact of the driver's finite fact tables only. -/
+theorem run_total_of_total_oracles (O : Oracles) (hT : O.Total) (qy : Query) (joined : List FileLine)
+    (files : List (List FileLine)) (stopAt : Option Nat) :
+    let r := runBatch O qy joined files stopAt
+    r.panicked = false ∧ r.skipped = none ∧
+      ((r.error = none ∧ ending r = .output) ∨ (∃ k, r.error = some k ∧ ending r = .reported k)) := by
+  intro r
+  have hp : r.panicked = false := run_never_panics O qy joined files stopAt
+  have hs : r.skipped = none := run_not_skipped_of_total_oracles O hT qy joined files stopAt
+  refine ⟨hp, hs, ?_⟩
+  unfold ending
+  rw [hs, hp]
+  cases he : r.error with
+  | none => exact Or.inl ⟨rfl, rfl⟩
+  | some k => exact Or.inr ⟨k, rfl, rfl⟩
+
+/-- line-at-a-time execution (follow mode) under a total oracle: no step of any statement asks for a fact, and (from a
+state reached by successful steps) none panics: every step yields the next state and its output, or a reported error -/
+theorem step_total_of_total_oracles (O : Oracles) (hT : O.Total) (qy : Query) (idx : JoinIndex) (w : Bool)
+    (es : EngineState) (l : Line) (h : Sqlgrep.NoPanicEngine.EInv qy es) :
+    (∃ out, executeLine O qy idx w es l = .ok out) ∨ (∃ k, executeLine O qy idx w es l = .error k) := by
+  have hm := (NM_iff _).1 (NoSkipEngine.NM_executeLine O anyFunc (fun f _ => NM_callFunction_total O hT f) qy idx w es l
+    (Stmt.allFuncs_any qy.stmt))
+  have hp := step_never_panics O qy idx w es l h
+  cases he : executeLine O qy idx w es l with
+  | ok out => exact Or.inl ⟨out, rfl⟩
+  | error k => exact Or.inr ⟨k, rfl⟩
+  | panic s => exact absurd he (hp s)
+  | oracleMissing x => exact absurd he (hm x)
+
+/-- **the same for the driver's oracles (finite tables), on the syntactic sub-class** — corollary of the generic layer
+with `factFreeFunc` in place of "every function": a batch run of a fact-free statement has `panicked = false` and
+`skipped = none` for ALL oracle tables, and ends in exactly one of two ways: `Ok` or a reported error. For statements
+that are not fact-free and an oracle that is not total, `run_ends_one_way` says the run may be skipped INSTEAD OF ending
+in one of the two ways, never in addition; `run_total_of_total_oracles` says that with total functions it is not. -/
 theorem run_trichotomy (O : Oracles) (qy : Query) (hq : qy.factFree = true) (joined : List FileLine)
     (files : List (List FileLine)) (stopAt : Option Nat) :
     let r := runBatch O qy joined files stopAt
@@ -351,7 +451,8 @@ example : ending (runBatch {} exSelect [] [[{ readable := true, line := { text :
 /-- … or a reported error (`'x' > 1` is a type error) -/
 example : ending (runBatch {} exSelect [] [[{ readable := true, line := { text := [], row := [.text [120], .text [120]] } }]] none) = .reported .typeError := by
   decide +kernel
-/-- a statement that evaluates `now()` is skipped by the model, whatever facts are shipped … -/
+/-- a statement that evaluates `now()` is skipped by the model under every oracle without a clock reading (every oracle
+the driver builds: `now_skipped_iff`) … -/
 example : ending (runBatch {} exNow [] [[{ readable := true, line := { text := [], row := [.int 2, .text [120]] } }]] none) = .skipped "now" := by
   decide +kernel
 /-- … `upper` of an ASCII text needs no fact, of a non-ASCII text (`é`) it needs the shipped mapping -/
@@ -362,6 +463,34 @@ example : ending (runBatch {} exUpper [] [[{ readable := true, line := { text :=
 example : ending (runBatch { upper := [([195, 169], [195, 137])] } exUpper [] [[{ readable := true, line := { text := [], row := [.int 2, .text [195, 169]] } }]] none) = .output := by
   decide +kernel
 
+/-- a total oracle (non-vacuity of `Oracles.Total`): some total functions — the theorems hold for whichever functions
+the libraries really are — and a clock reading -/
+def exTotal : TotalOracles :=
+  { upperF := fun s => s.map (fun b => if 97 ≤ b ∧ b ≤ 122 then b - 32 else b)
+    lowerF := fun s => s
+    regexF := fun v p => if p = [40] then none else some (v == p)      -- the pattern `(` is invalid
+    nowF := .timestamp 739000 0 0 }
+
+example : exTotal.oracles.Total := ⟨exTotal, rfl⟩
+example : ({ upper := [([195, 169], [195, 137])], total := some exTotal } : Oracles).Total := ⟨exTotal, rfl⟩
+
+/-- `SELECT regexp_matches(b, '(') FROM t`: an invalid pattern -/
+def exRegex : Query :=
+  { exSelect with stmt := .select { projections := [("p0", .call .regexMatches [.column "b", .value (.text [40])])],
+                                     wildcard := false, filter := none, limit := none, distinct := false } }
+
+-- under a total oracle the statements the driver's model skips end with records or a reported error
+-- (`run_total_of_total_oracles`): `now()`, `upper` of a non-ASCII text, `regexp_matches` with an invalid pattern
+example : ending (runBatch exTotal.oracles exNow [] [[{ readable := true, line := { text := [], row := [.int 2, .text [120]] } }]] none) = .output := by
+  decide +kernel
+example : ending (runBatch exTotal.oracles exUpper [] [[{ readable := true, line := { text := [], row := [.int 2, .text [195, 169]] } }]] none) = .output := by
+  decide +kernel
+example : ending (runBatch exTotal.oracles exRegex [] [[{ readable := true, line := { text := [], row := [.int 2, .text [120]] } }]] none) = .reported .invalidRegex := by
+  decide +kernel
+example : ending (runBatch {} exRegex [] [[{ readable := true, line := { text := [], row := [.int 2, .text [120]] } }]] none) = .skipped "regex" := by
+  decide +kernel
+example : exRegex.factFree = false := by decide
+
 /-! ### `row[index]` sites
 
 The engine indexes the extracted row of a line by the position of a column name among the table's names (join keys,
@@ -370,8 +499,11 @@ The engine indexes the extracted row of a line by the position of a column name 
 column, the engine looks only at admitted rows (`executeLine` / `loadJoin` test `any_result` first), an admitted row has
 one value per column, and the position of a name is a position of the row. -/
 
-/-- every `row[index]` site of the engine is in range on the rows the engine is given, and the model's default is never
-taken there -/
+/-- the lemma behind the `row[index]` sites, about `extractRow` and the names `lowerCreate` produces ALONE: in an admitted
+row of a lowered table the position of a column name is a position of the row, and the model's `getD … NULL` default is
+not taken at it. It does not mention the engine: that the rows the engine is handed ARE such rows and the indices it
+computes ARE such positions — i.e. that every `row[index]` site of the engine is in range — is the composed statement
+`Props/C09Pipeline.engine_rows_and_indices_in_range` (over `Pipeline.runStatement`, with kernel examples). -/
 theorem row_index_sites_in_range (rv : List Char → Bool) (c : PCreate) (n : String) (d : Extract.TableDef)
     (names : List String) (hlow : Lower.lowerCreate rv c = .ok (.createTable n d names))
     (o : Extract.Oracles) (lo : Extract.LineOracle) (hadm : Extract.anyResult (Extract.extractRow o d lo) = true)
